@@ -25,27 +25,45 @@ DRAW_PLT = {"plot", "scatter", "imshow", "matshow", "legend", "xlabel", "ylabel"
 ALLOWED_PLT = {"gca", "gcf", "style.use", "show", "savefig", "get_cmap", "figure", "subplots", "close"}
 
 
-def _owns_ax(fi) -> bool:
+def _ax_bindings(project, fi):
+    """expressions bound to the local name `ax` (helpers inlined, temporaries expanded, tuple assignments paired up)"""
+    from .common import expand_locals, fn_view
+    f = fn_view(project, fi)
+    out = []
+    for n in ast.walk(f):
+        if not isinstance(n, ast.Assign) or len(n.targets) != 1:
+            continue
+        t, v = n.targets[0], n.value
+        if isinstance(t, ast.Name) and t.id == "ax":
+            out.append(expand_locals(f, v))
+        elif isinstance(t, (ast.Tuple, ast.List)):
+            ve = expand_locals(f, v) if not isinstance(v, (ast.Tuple, ast.List)) else v
+            if isinstance(ve, (ast.Tuple, ast.List)) and len(ve.elts) == len(t.elts):
+                for tt, vv in zip(t.elts, ve.elts):
+                    if isinstance(tt, ast.Name) and tt.id == "ax":
+                        out.append(expand_locals(f, vv))
+            elif any(isinstance(tt, ast.Name) and tt.id == "ax" for tt in t.elts):
+                out.append(ve)
+    return out
+
+
+def _owns_ax(project, fi) -> bool:
     if "ax" not in fi.params:
         return False
-    for n in ast.walk(fi.node):
-        if isinstance(n, ast.Assign) and len(n.targets) == 1 and isinstance(n.targets[0], ast.Name) \
-                and n.targets[0].id == "ax":
-            v = n.value
-            if isinstance(v, ast.BoolOp) and isinstance(v.op, ast.Or) and isinstance(v.values[0], ast.Name) \
-                    and v.values[0].id == "ax":
-                return True
-            if isinstance(v, ast.IfExp):
-                return True
+    for v in _ax_bindings(project, fi):
+        if isinstance(v, ast.BoolOp) and isinstance(v.op, ast.Or) and isinstance(v.values[0], ast.Name) \
+                and v.values[0].id == "ax":
+            return True
+        if isinstance(v, ast.IfExp):
+            return True
     return False
 
 
-def _reassigns_ax_from_figure(fi) -> bool:
-    for n in ast.walk(fi.node):
-        if isinstance(n, ast.Assign) and len(n.targets) == 1 and isinstance(n.targets[0], ast.Name) \
-                and n.targets[0].id == "ax" and isinstance(n.value, ast.Call) and isinstance(n.value.func, ast.Attribute) \
-                and n.value.func.attr in ("add_subplot", "add_axes", "subplots"):
-            return True
+def _reassigns_ax_from_figure(project, fi) -> bool:
+    for v in _ax_bindings(project, fi):
+        for x in ast.walk(v):
+            if isinstance(x, ast.Call) and isinstance(x.func, ast.Attribute) and x.func.attr in ("add_subplot", "add_axes", "subplots"):
+                return True
     return False
 
 
@@ -80,11 +98,11 @@ def check_recv(project: Project, rep):
     for q, fi in sorted(project.functions.items()):
         if fi.parent is not None or not isinstance(fi.node, ast.FunctionDef) or "ax" not in fi.params:
             continue
-        if _reassigns_ax_from_figure(fi):
+        if _reassigns_ax_from_figure(project, fi):
             rep.note(f"{q}: creates its own figure and discards the `ax` argument (3-D plot) — outside the statement")
             continue
         locs = local_names(fi.node)
-        if _owns_ax(fi):
+        if _owns_ax(project, fi):
             owners += 1
             rep.analysed(fi)
             bad = draws_on_current_axes(project, fi)
@@ -103,16 +121,21 @@ def check_recv(project: Project, rep):
                 t = project.resolve(fi.module, n.func, locs)
                 if t in project.functions and "ax" in project.functions[t].params and t != q:
                     callee = project.functions[t]
-                    kw = [k for k in n.keywords if k.arg == "ax"]
+                    from .common import expanded_keywords, expand_locals, fn_view
+                    kws, complete = expanded_keywords(fn_view(project, fi), n)
                     pos_i = callee.params.index("ax")
                     passed = None
-                    if kw:
-                        passed = kw[0].value
-                    elif pos_i < len(n.args):
+                    if "ax" in kws:
+                        passed = kws["ax"]
+                    elif pos_i < len(n.args) and not any(isinstance(a, ast.Starred) for a in n.args):
                         passed = n.args[pos_i]
                     dispatch += 1
+                    if passed is not None:
+                        passed = expand_locals(fn_view(project, fi), passed)
                     if passed is not None and isinstance(passed, ast.Name) and passed.id == "ax":
                         rep.discharged("PL-RECV", fi, n, f"forwards ax=ax to {t}")
+                    elif passed is None and (not complete or any(isinstance(a, ast.Starred) for a in n.args)):
+                        rep.unmodelled("PL-RECV", fi, n, f"cannot tell whether `ax` is among the star-arguments passed to {t}")
                     else:
                         rep.refuted("PL-RECV", fi, n, f"calls {t} without forwarding the axes it was given: that part of the "
                                                       f"plot goes to pyplot's current axes")
@@ -159,10 +182,10 @@ def check_matching_plot(project: Project, rep, qual):
     ps = fi.params
     args = {ps[0]: dgm_input("S"), ps[1]: dgm_input("T"), ps[2]: _matching_input(), "ax": ObjV(None, {}, tag="axes")}
     I.run(qual, args)
-    segs = [ev for ev in I.log if ev["kind"] in ("draw", "pyplot") and ev["fi"] is fi
+    segs = [ev for ev in I.log if ev["kind"] in ("draw", "pyplot") and ev["fi"].qualname != "persim.visuals.plot_diagrams"
             and (ev.get("method") == "plot" or ev.get("function") == "plot")]
-    if len(segs) < 3:
-        rep.unmodelled("PL-SEG", fi, fi.node, f"expected three segment-drawing call sites, found {len(segs)}")
+    if not segs:
+        rep.unmodelled("PL-SEG", fi, fi.node, "no segment-drawing call reached in symbolic execution")
         return
     # PL-SEG: exactly one segment per row with a non-(-1) entry
     total = sym.ZERO
@@ -184,13 +207,43 @@ def check_matching_plot(project: Project, rep, qual):
                                                    f"non-diagonal entry; witness {w}", construct=f"{qual}: segments per row")
     else:
         rep.unmodelled("PL-SEG", fi, segs[0]["node"], f"cannot evaluate the segment count ({w})")
+    import itertools
+    arms = []
     for ev in segs:
         pos = ev["pos"]
         if len(pos) < 2 or not all(isinstance(p, Seq) and len(p.items) == 2 and all(isinstance(x, Sc) for x in p.items)
                                    for p in pos[:2]):
             rep.unmodelled("PL-IDX", fi, ev["node"], "segment end-points are not two (x, y) pairs")
             continue
-        xs, ys = [x.e for x in pos[0].items], [y.e for y in pos[1].items]
+        coords = [x.e for x in pos[0].items] + [y.e for y in pos[1].items]
+        # one call site may serve several cases (coordinates selected by conditional expressions): split into arms
+        atoms = []
+        for e_ in coords:
+            for x in sym.walk(e_):
+                if x[0] == "ite":
+                    for y in sym.walk(x[1]):
+                        if y[0] == "cmp" and not any(y == a_ or sym.Not(y) == a_ for a_ in atoms):
+                            atoms.append(y)
+        if len(atoms) > 4:
+            rep.unmodelled("PL-IDX", fi, ev["node"], "too many case distinctions in one segment-drawing call")
+            continue
+        grouped = {}
+        for bits in itertools.product((True, False), repeat=len(atoms)):
+            mp = {}
+            lits = []
+            for a_, b_ in zip(atoms, bits):
+                mp[a_] = sym.TRUE if b_ else sym.FALSE
+                mp[sym.Not(a_)] = sym.FALSE if b_ else sym.TRUE
+                lits.append(a_ if b_ else sym.Not(a_))
+            rch = sym.subst(ev["reach"], mp)
+            if rch == sym.FALSE:
+                continue
+            cs = tuple(sym.subst(e_, mp) for e_ in coords)
+            grouped.setdefault(cs, []).append(sym.And(ev["reach"], *lits))
+        for cs, conds in grouped.items():
+            arms.append(dict(node=ev["node"], reach=sym.Or(*conds), xs=list(cs[:2]), ys=list(cs[2:])))
+    for ev in arms:
+        xs, ys = ev["xs"], ev["ys"]
         allx = sym.Choice(xs + ys)
         if unmodelled_in(allx):
             rep.unmodelled("PL-IDX", fi, ev["node"], f"segment coordinates not modelled: {unmodelled_in(allx)}")
@@ -256,60 +309,52 @@ def check_matching_plot(project: Project, rep, qual):
     return I
 
 
-def check_max_style(project: Project, rep, qual):
+def check_max_style(project: Project, rep, qual, I=None):
+    """PL-MAX, decided on the symbolic drawing events: some style argument of the segment-drawing calls is a conditional
+    value whose condition is `row index == argmax(cost column)` and whose two arms differ."""
     fi = project.function(qual)
-    f = fi.node
-    # max_idx = np.argmax(matching[:, 2])
-    arg = None
-    for n in ast.walk(f):
-        if isinstance(n, ast.Assign) and isinstance(n.value, ast.Call):
-            t = project.resolve(fi.module, n.value.func, local_names(f))
-            if t in ("numpy.argmax",) and isinstance(n.targets[0], ast.Name):
-                a = n.value.args[0] if n.value.args else None
-                col = None
-                if isinstance(a, ast.Subscript) and isinstance(a.slice, ast.Tuple) and len(a.slice.elts) == 2 \
-                        and isinstance(a.slice.elts[1], ast.Constant):
-                    col = a.slice.elts[1].value
-                arg = (n.targets[0].id, col, n)
-    if arg is None:
-        rep.refuted("PL-MAX", fi, f, "no argmax of the matching's cost column: the bottleneck pair cannot be marked",
-                    construct=f"{qual}: bottleneck pair")
+    if I is None:
+        rep.unmodelled("PL-MAX", fi, fi.node, "matching plot not executed")
         return
-    name, col, node = arg
-    if col != 2:
-        rep.refuted("PL-MAX", fi, node, f"the distinguished row is the argmax of column {col}, not of the cost column 2")
+    segs = [ev for ev in I.log if ev["kind"] in ("draw", "pyplot") and ev["fi"].qualname != "persim.visuals.plot_diagrams"
+            and (ev.get("method") == "plot" or ev.get("function") == "plot")]
+    if not segs:
+        rep.unmodelled("PL-MAX", fi, fi.node, "no segment-drawing call reached")
         return
-    for n in ast.walk(f):
-        if isinstance(n, ast.If) and isinstance(n.test, ast.Compare) and len(n.test.ops) == 1 \
-                and isinstance(n.test.ops[0], ast.Eq) and any(isinstance(x, ast.Name) and x.id == name
-                                                              for x in [n.test.left] + n.test.comparators):
-            assigned = {}
-            for st in n.body:
-                if isinstance(st, ast.Assign) and isinstance(st.targets[0], ast.Name) and isinstance(st.value, ast.Constant):
-                    assigned[st.targets[0].id] = st.value.value
-            # defaults assigned just before
-            defaults = {}
-            for m in ast.walk(f):
-                if isinstance(m, ast.Assign) and isinstance(m.targets[0], ast.Name) and isinstance(m.value, ast.Constant) \
-                        and m.lineno < n.lineno and m.targets[0].id in assigned:
-                    defaults[m.targets[0].id] = m.value.value
-            used = set()
-            for c in ast.walk(f):
-                if isinstance(c, ast.Call) and isinstance(c.func, ast.Attribute) and c.func.attr == "plot":
-                    for a in list(c.args) + [k.value for k in c.keywords]:
-                        if isinstance(a, ast.Name):
-                            used.add(a.id)
-            differing = [k for k, v in assigned.items() if k in defaults and defaults[k] != v and k in used]
-            if differing:
-                rep.discharged("PL-MAX", fi, n, f"the max-cost row gets a different {', '.join(sorted(differing))} than all "
-                                                f"other rows")
-            else:
-                rep.refuted("PL-MAX", fi, n, "the bottleneck pair is drawn with the same style as every other pair")
-            return
-    rep.refuted("PL-MAX", fi, node, "the index of the max-cost row is computed but never used to style that row")
+    for ev in segs:
+        styles = list(ev["pos"][2:]) + list((ev.get("kwargs") or {}).values())
+        marked, wrong_col, unknown = [], None, False
+        for v in styles:
+            if isinstance(v, StrV):
+                continue
+            if not isinstance(v, Sc):
+                unknown = True
+                continue
+            for x in sym.walk(v.e):
+                if x[0] == "ite" and x[2] != x[3]:
+                    am = [y for y in sym.walk(x[1]) if y[0] == "opq" and y[1] == "argmax"]
+                    if not am:
+                        continue
+                    cols = {z[2][1] for y in am for d in y[2] if isinstance(d, tuple) for z in sym.walk(d)
+                            if z[0] == "in" and z[1] == "Mt"}
+                    if cols == {2}:
+                        marked.append(v)
+                    else:
+                        wrong_col = cols
+            if unmodelled_in(v.e):
+                unknown = True
+        if marked:
+            rep.discharged("PL-MAX", fi, ev["node"], f"the row at argmax of the cost column is drawn with {len(marked)} style "
+                                                     f"argument(s) that differ from all other rows")
+        elif wrong_col is not None:
+            rep.refuted("PL-MAX", fi, ev["node"], f"the distinguished row is the argmax of column {sorted(wrong_col)}, not of the "
+                                                  f"cost column 2")
+        elif unknown:
+            rep.unmodelled("PL-MAX", fi, ev["node"], "style arguments of the segment-drawing call not modelled")
+        else:
+            rep.refuted("PL-MAX", fi, ev["node"], "the bottleneck pair is drawn with the same style as every other pair",
+                        construct=f"{qual}: bottleneck pair style")
 
-
-# ----------------------------------------------------------------------------- plot_diagrams (evaluator)
 
 def _minmax_parts(e):
     """(a, b, rest) with e == a*MIN + b*MAX + rest, MIN/MAX the bag-min / bag-max opaque atoms"""
@@ -438,7 +483,9 @@ def check_landscape_plots(project: Project, rep):
         if fi is None:
             raise AnalysisError(f"PL-LAND: {name} not found")
         rep.analysed(fi)
-        loops = [n for n in ast.walk(fi.node) if isinstance(n, ast.For) and isinstance(n.iter, ast.Call)
+        from .common import expand_locals, fn_view
+        f = fn_view(project, fi)
+        loops = [n for n in ast.walk(f) if isinstance(n, ast.For) and isinstance(n.iter, ast.Call)
                  and isinstance(n.iter.func, ast.Name) and n.iter.func.id == "enumerate"]
         if len(loops) != 1:
             rep.unmodelled("PL-LAND", fi, fi.node, "depth loop not found")
@@ -454,28 +501,56 @@ def check_landscape_plots(project: Project, rep):
             rep.refuted("PL-LAND", fi, lp, f"{len(plots)} line(s) drawn per depth instead of exactly one")
             continue
         c = plots[0]
+        # names that hold (a copy / view / conversion of) this depth's data and nothing else
         derived = {var}
-        for st in lp.body:
-            if isinstance(st, ast.Assign) and isinstance(st.targets[0], ast.Name) and any(
-                    isinstance(x, ast.Name) and x.id in derived for x in ast.walk(st.value)):
-                derived.add(st.targets[0].id)
+        changed = True
+        while changed:
+            changed = False
+            for st in ast.walk(lp):
+                if not isinstance(st, ast.Assign) or len(st.targets) != 1:
+                    continue
+                t, v = st.targets[0], st.value
+                pairs = []
+                if isinstance(t, ast.Name):
+                    pairs = [(t, v)]
+                elif isinstance(t, (ast.Tuple, ast.List)) and isinstance(v, (ast.Tuple, ast.List)) and len(t.elts) == len(v.elts):
+                    pairs = [(a_, b_) for a_, b_ in zip(t.elts, v.elts) if isinstance(a_, ast.Name)]
+                for a_, b_ in pairs:
+                    pure = isinstance(b_, ast.Name) or (isinstance(b_, ast.Call) and ast.unparse(b_.func) in (
+                        "np.array", "np.asarray", "list", "np.copy") and len(b_.args) == 1 and isinstance(b_.args[0], ast.Name))
+                    src = b_ if isinstance(b_, ast.Name) else (b_.args[0] if pure else None)
+                    if pure and src.id in derived and a_.id not in derived:
+                        derived.add(a_.id)
+                        changed = True
         ok = False
-        if kind == "exact" and len(c.args) >= 2:
-            a0, a1 = c.args[0], c.args[1]
+        args = [expand_locals(lp, a_) if not (isinstance(a_, ast.Name) and a_.id in derived) else a_ for a_ in c.args]
+
+        def base_is_depth(a):
+            while isinstance(a, ast.Call) and ast.unparse(a.func) in ("np.array", "np.asarray", "list") and len(a.args) == 1:
+                a = a.args[0]
+            return isinstance(a, ast.Name) and a.id in derived
+        if kind == "exact" and len(args) >= 2:
+            a0, a1 = args[0], args[1]
+
             def col(a):
-                if isinstance(a, ast.Subscript) and isinstance(a.value, ast.Name) and a.value.id in derived \
+                if isinstance(a, ast.Subscript) and base_is_depth(a.value) \
                         and isinstance(a.slice, ast.Tuple) and isinstance(a.slice.elts[1], ast.Constant):
                     return a.slice.elts[1].value
                 return None
-            ok = col(a0) == 0 and col(a1) == 1
-            if not ok:
+            cols = (col(a0), col(a1))
+            ok = cols == (0, 1)
+            if not ok and None not in cols:
                 rep.refuted("PL-LAND", fi, c, f"the line of a depth is not (abscissae, ordinates) = (column 0, column 1) of "
                                               f"that depth's critical points")
-        elif kind == "approx" and len(c.args) >= 2:
-            a1 = c.args[1]
-            ok = isinstance(a1, ast.Name) and a1.id == var
-            if not ok:
+            elif not ok:
+                rep.unmodelled("PL-LAND", fi, c, f"arguments of the per-depth line `{ast.unparse(c)[:80]}` not recognised")
+        elif kind == "approx" and len(args) >= 2:
+            a1 = args[1]
+            ok = base_is_depth(a1)
+            if not ok and isinstance(a1, ast.Name):
                 rep.refuted("PL-LAND", fi, c, "the ordinates of a depth's line are not that depth's sampled values")
+            elif not ok:
+                rep.unmodelled("PL-LAND", fi, c, f"ordinates of the per-depth line `{ast.unparse(a1)[:80]}` not recognised")
         if ok:
             rep.discharged("PL-LAND", fi, c, f"one line per depth, drawn from that depth's own data ({kind})")
 
@@ -494,8 +569,9 @@ def run(project: Project, rep, tier: str):
     rep.assume("matplotlib Axes methods draw on their receiver; pyplot functions draw on the current axes")
     check_recv(project, rep)
     for q in ("persim.visuals.bottleneck_matching", "persim.visuals.wasserstein_matching"):
-        check_matching_plot(project, rep, q)
-    check_max_style(project, rep, "persim.visuals.bottleneck_matching")
+        I_ = check_matching_plot(project, rep, q)
+        if q.endswith("bottleneck_matching"):
+            check_max_style(project, rep, q, I_)
     check_plot_diagrams(project, rep)
     check_landscape_plots(project, rep)
     for rn, n in (("PL-SEG", 2), ("PL-IDX", 6), ("PL-FOOT", 6), ("PL-MAX", 1), ("PL-DGM", 4), ("PL-LIM", 4), ("PL-LAND", 2)):
